@@ -84,6 +84,7 @@ pub enum RuleRuntimeError {
     AlphaUnknown        (Position),
     LonelySet           (Position),
     UnknownVariable(Token),
+    NoProgress          (Position),
     DeletionOnlySeg,
     DeletionOnlySyll,
 }
@@ -126,6 +127,7 @@ impl ASCAError for RuleRuntimeError {
             Self::InsertionNoEnv      (_) => "Insertion rules must have a context".to_string(),
             Self::AlphaUnknown        (_) => "Alpha has not be assigned before applying".to_string(),
             Self::LonelySet           (_) => "A Set in output must have a matching Set in input".to_string(),
+            Self::NoProgress          (_) => "Rule keeps matching at the same position and would never finish".to_string(),
             Self::UnknownVariable(token)  => format!("Unknown variable '{}' at {}", token.value, token.position.start),
             Self::DeletionOnlySyll => "Can't delete a word's only syllable".to_string(),
             Self::DeletionOnlySeg  => "Can't delete a word's only segment".to_string(),
@@ -164,6 +166,7 @@ impl ASCAError for RuleRuntimeError {
             Self::AlphaIsNotNode      (pos) |
             Self::AlphaUnknown        (pos) |
             Self::LonelySet           (pos) | 
+            Self::NoProgress          (pos) |
             Self::NodeCannotBeSome (_, pos) |
             Self::NodeCannotBeNone (_, pos) |
             Self::NodeCannotBeSet  (_, pos) => (
